@@ -93,8 +93,8 @@ func (e *routeE2E) request(names []string, host, uri string) (int, string) {
 func init() { families["route"] = runRoute }
 
 var rtHosts = []string{"a.com", "b.com", "c.com"}
-var rtURIs = []string{"/", "/api", "/api/v1/users?x=1", "/static/x.js", "/apix", "/api/zones", "/apiary", "/users", "/user/7", "/api/users/1", "/s"}
-var rtPrefixPool = []string{"/", "/api", "/api/users", "/api/v1", "/apix", "/user", "/users", "/static", "/s", "/api/"}
+var rtURIs = []string{"/", "/api", "/api/v1/users?x=1", "/static/x.js", "/apix", "/api/zones", "/apiary", "/users", "/user/7", "/api/users/1", "/s", "/api/internal/reports/monthly-summary/2026?x=1", "/static/assets/javascript/vendor/bundles/application/main.js"}
+var rtPrefixPool = []string{"/", "/api", "/api/users", "/api/v1", "/apix", "/user", "/users", "/static", "/s", "/api/", "/api/internal/reports/monthly-summary", "/static/assets/javascript/vendor/bundles/application/"}
 var rtHostLists = [][]string{nil, {"a.com"}, {"b.com", "c.com"}, {"a.com", "b.com"}}
 var rtPrefixLists = [][]string{nil, {"/api"}, {"/static", "/api/v1"}, {"/"}}
 var rtNames = []string{"l0", "l1", "l2", "l3", "zz"}
@@ -111,7 +111,7 @@ func strList(xs []string) string {
 func runRoute(seed uint64, n int, tier string, out string, replay string) {
 	rnd := hx.NewRand(seed)
 	sum := hx.NewSummary("route", seed)
-	sum.Rule = "one case = one location set (1-5 locations; host list and prefix list drawn from 4 fixed shapes or (60%) 1-4 related prefixes from a pool of 10 in any order (nested prefixes, duplicates); names possibly shared or unlisted; declaration order random) queried with every (host, URI) of a 3x11 universe under 3 server location lists asked in both orders (all, a subset, a single name; then single, subset, all); observable = which configured location the real Locations.Get returns; 6% of the queries are also sent through a long-lived server's proxy middleware (kept across cases while the location registry is re-applied for every case, as a reload does) to five recording origins: the answering origin must be the chosen location's upstream, and none may be contacted when no location matches; non-trivial = at least two eligible locations of different classes for some query; distinct by the location set"
+	sum.Rule = "one case = one location set (1-5 locations; host list and prefix list drawn from 4 fixed shapes or (60%) 1-4 related prefixes from a pool of 12 in any order (nested prefixes, duplicates, two prefixes of 37 and 52 bytes); names possibly shared or unlisted; declaration order random) queried with every (host, URI) of a 3x13 universe under 3 server location lists asked in both orders (all, a subset, a single name; then single, subset, all); observable = which configured location the real Locations.Get returns; 6% of the queries are also sent through a long-lived server's proxy middleware (kept across cases while the location registry is re-applied for every case, as a reload does) to five recording origins: the answering origin must be the chosen location's upstream, and none may be contacted when no location matches; non-trivial = at least two eligible locations of different classes for some query; distinct by the location set"
 	header := "From Coq Require Import List NArith ZArith.\nImport ListNotations.\nFrom Pike Require Import Base.Bytes Model.Location Corr.C14Corr.\nFrom PikeRun Require Import Consts.\n"
 	w := hx.NewCaseWriter(out, "route", header, "list rt_case", "check_cases Consts.loc_pconsts", 60, sum)
 	distinct := hx.NewDistinct()
